@@ -33,7 +33,7 @@ claim('C19', 'model_checking',
       'explicit-state BFS over activation histories on the real bus with real child processes under harness control, plus an exhaustive product of helper invocations, judged by an activation model and an exec-iff-valid predicate',
       'Bus: histories of auto-start calls and StartServiceByName by several senders to two activatable names (plus one whose binary is missing), a harness client taking the name / another name, the stub exiting with status 0/1/SIGSEGV, '
       'the start timeout and sender disconnects are explored breadth-first; the start log must show at most one start per pending activation, held messages must be delivered exactly once in arrival order when the name is taken, '
-      'and every waiter must get exactly one error if starting fails, the process exits unsuccessfully or the timeout passes; the implementation\'s pending-activation table must equal the model, also across a reload of the configuration while activations are pending. '
+      'and every waiter must get exactly one error if starting fails, the process exits unsuccessfully or the timeout passes; the implementation\'s pending-activation table must equal the model, also across a reload of the configuration while activations are pending (quick tier: one name to depth 4, two names - same program, different arguments - to depth 3). '
       'Helper: for every (name argument x service-file content x directory layout) combination the recorder program runs iff the name is a valid bus name whose file in a configured directory declares that name, an Exec that parses and a User; its argv equals the reference split.',
       'The babysitter reports child exits asynchronously: the harness alternates loop iterations with short sleeps until the report is consumed (real-time guard 3 s). A stub that exits 0 without taking the name and services sharing one Exec string are judged only for "one outcome per waiter".',
       'DESIGN.md section 4 C19')
